@@ -314,8 +314,10 @@ func (s *Sys) CheckSparse(witness []*big.Int, sol *Solution) (*SparseReport, err
 	if len(sol.L) < n || len(sol.R) < n || len(sol.O) < n {
 		return nil, fmt.Errorf("solution columns have %d,%d,%d rows, need at least %d", len(sol.L), len(sol.R), len(sol.O), n)
 	}
-	if len(witness) != np+s.NbSecret {
-		return nil, fmt.Errorf("witness has %d values, want %d", len(witness), np+s.NbSecret)
+	// witness: the full witness (solver outputs must extend it) or only its public part
+	// (a prover is free to choose the secret values)
+	if len(witness) != np+s.NbSecret && len(witness) != np {
+		return nil, fmt.Errorf("witness has %d values, want %d or %d", len(witness), np+s.NbSecret, np)
 	}
 	rep := &SparseReport{}
 	val := map[int]*big.Int{}
